@@ -162,10 +162,8 @@ func (manager *partitionManager) remove() {
 	for i := range nodes {
 		_, _ = manager.pc.removeNode(nodes[i].NodeID)
 	}
-	log.Log(log.SchedPartition).Info("removing partition",
-		zap.String("partitionName", manager.pc.Name))
-	// remove the scheduler object
-	manager.cc.removePartition(manager.pc.Name)
+	// the scheduler object is removed from the context by the caller: the config update and RM removal
+	// paths hold the context lock when they stop the partition manager
 }
 
 func (manager *partitionManager) cleanExpiredApps() {
